@@ -151,9 +151,11 @@ func (e *Enc) topEnv(fn *ssa.Function, con *Contract, params, rets []Val, st, ol
 
 // frameObligations: everything outside the modifies clause is unchanged.
 func (e *Enc) frameObligations(name string, con *Contract, env *Env, entry *State, pos token.Pos) {
+	name0 := name
 	// collect allowed (key -> refs) from the modifies clause
 	allowedRef := map[string][]T{} // heap key -> refs
 	var allowedArr []T
+	allowedGlobal := map[string]bool{}
 	for _, m := range con.Modifies {
 		func() {
 			defer func() {
@@ -178,6 +180,10 @@ func (e *Enc) frameObligations(name string, con *Contract, env *Env, entry *Stat
 			}
 			if strings.HasPrefix(m, "ghost_") {
 				allowedRef["G|"+strings.TrimPrefix(m, "ghost_")] = nil
+				return
+			}
+			if strings.HasPrefix(m, "global:") {
+				allowedGlobal[strings.TrimPrefix(m, "global:")] = true
 				return
 			}
 			target, all := m, false
@@ -254,6 +260,15 @@ func (e *Enc) frameObligations(name string, con *Contract, env *Env, entry *Stat
 			}
 			goal := T{fmt.Sprintf("(forall ((a!f (_ BitVec 64))) (=> %s (= (select %s a!f) (select %s a!f))))", and(cs...).S, fin.S, ini.S), SBool}
 			e.oblige("frame", name+"/frame."+strings.ReplaceAll(strings.TrimPrefix(k, "M|"), "|", "."), goal, pos)
+		case strings.HasPrefix(k, "V|"):
+			name := k[strings.LastIndex(strings.SplitN(k, "|", 3)[1], ".")+3:]
+			if i := strings.Index(name, "|"); i >= 0 {
+				name = name[:i]
+			}
+			if allowedGlobal[name] {
+				continue
+			}
+			e.oblige("frame", name0+"/frame.global."+name, eq(fin, ini), pos)
 		case strings.HasPrefix(k, "G|"):
 			if _, ok := allowedRef[k]; ok {
 				continue
